@@ -32,6 +32,9 @@ TRUSTED_BASE = BASE_TRUSTED + [
 RULE = ('kernel cases: seeded random PSF images (both paddings), paraxial data of both conjugates; system cases: '
         'cut-off/working F-number: both conjugates with object and/or image space in air or an immersion medium (n 1.2..1.7; '
         'fixed relays + lensgen.immerse), magnification from an independent y-nu matrix trace; '
+        'routes/histories: fixed + generated prescriptions built direct / with ready-made Surface objects / in a reset() Optic that held '
+        'another lens / through to_dict-from_dict / with an explicit ImageSurface / edited by public setters, cut-off, working F-number '
+        'and PSF pitch against matrix optics on the ENTERED prescription, arrays against the direct build, repeated queries, argument forms; '
         'PSF normalisation: pupils of non-uniform amplitude (aperture away from the stop, vignetted off-axis field, obscuration, '
         'absorbing glass; synthetic apodised/partly-zero data) against |sum A e^{i phi}|^2/(sum A)^2; '
         'several fields at once: FFTMTF and GeometricMTF built with 1, 2, 3 and 4 fields (on-axis + comatic off-axis; stigmatic and '
@@ -1034,6 +1037,251 @@ def check_multifield(ctx):
             'note': 'kinds seen: ' + ', '.join(sorted({d['kind'] for d in short}))}
 
 
+# ----------------------------------------------------------------------------------------------
+# the same prescription reached through other public routes / histories: expected values from the PRESCRIPTION
+# ----------------------------------------------------------------------------------------------
+INF = float('inf')
+
+
+def spec_psurfs(spec, w):
+    """paraxial surface data straight from the entered prescription (never read from the lens object): vertex positions = running
+    sums of the thicknesses, indices as entered (catalogue glasses from a fresh Material)"""
+    def idx(m, prev):
+        if m == 'air':
+            return 1.0
+        if m == 'mirror':
+            return prev
+        if m[0] == 'ideal':
+            return float(m[1])
+        from optiland.materials import Material
+        return float(np.ravel((Material(m[1]) if len(m) == 2 else Material(m[1], m[2])).n(w))[0])
+    n0 = float(spec['object_material'][1]) if spec.get('object_material') else 1.0
+    t0 = float(spec['object_thickness'])
+    ps = [{'z': -t0, 'R': INF, 'npre': float('nan'), 'npost': n0, 'refl': False, 'stop': False, 'obj': True}]
+    z, prev = 0.0, n0
+    for sf in spec['surfaces']:
+        if any(abs(float(sf.get(k, 0.0))) > 0 for k in ('dx', 'dy', 'rx', 'ry')) or sf.get('type', 'standard') not in ('standard',):
+            return None
+        m = sf.get('material', 'air')
+        post = idx(m, prev)
+        ps.append({'z': z, 'R': float(sf.get('radius', INF)), 'npre': prev, 'npost': post, 'refl': m == 'mirror',
+                   'stop': bool(sf.get('is_stop')), 'obj': False})
+        z += float(sf['thickness'])
+        prev = post
+    # the image surface is a (plane) surface of the prescription with its own medium behind it: the entered image_material, air
+    # when none was entered (Optic.add_surface default) -- the library measures image-space angles behind this surface
+    npost = float(spec['image_material'][1]) if spec.get('image_material') else 1.0
+    ps.append({'z': z, 'R': INF, 'npre': prev, 'npost': npost, 'refl': False, 'stop': False, 'obj': False})
+    return ps
+
+
+def prescription_cutoff(spec):
+    """working F-number and incoherent cut-off 1/(lambda_mm * F_w) by matrix optics (tools/oracles.abcd_quantities) on the entered
+    prescription: FNO = |f2|/EPD (or the entered image-space F-number), finite conjugates F_w = FNO (1 + |m|/p), m = n u/(n' u'),
+    p = XPD/EPD.  None when the prescription is outside what the matrix trace models or a quantity is not finite"""
+    import oracles
+    w = [x for x, prim in spec['wavelengths'] if prim][0]
+    ps = spec_psurfs(spec, w)
+    if ps is None:
+        return None
+    ap_type, ap_value = spec['aperture']
+    try:
+        q = oracles.abcd_quantities(ps, ap_type, ap_value, spec['field_type'], max(f[0] for f in spec['fields']))
+    except Exception:     # noqa
+        return None
+    if 'EPD' not in q or 'marginal' not in q or not math.isfinite(q.get('f2', float('nan'))):
+        return None
+    fno = float(ap_value) if ap_type == 'imageFNO' else abs(q['f2']) / q['EPD']
+    out = {'wavelength': w, 'FNO': fno, 'EPD': q['EPD'], 'f2': q['f2']}
+    wf = fno
+    if not math.isinf(ps[0]['z']):
+        if not math.isfinite(q.get('XPL', float('nan'))):
+            return None
+        y, u = q['marginal'][-1]
+        xpd = 2 * (y + u * q['XPL'])
+        u0 = q['EPD'] / (2 * (q['EPL'] - ps[0]['z']))
+        if u == 0 or xpd == 0:
+            return None
+        m = ps[0]['npost'] * u0 / (ps[-1]['npost'] * u)
+        wf = fno * (1 + abs(m) / (xpd / q['EPD']))
+        out.update(magnification=m, XPD=xpd)
+    if not (math.isfinite(wf) and wf > 0):
+        return None
+    out.update(working_FNO=wf, cutoff=1.0 / (w * 1e-3 * wf))
+    return out
+
+
+def route_corpus(ctx):
+    """(name, spec): fixed prescriptions (every class present whatever the seed) + seeded ones"""
+    import lensgen
+    base = {'field_type': 'angle', 'fields': [[0.0, 0.0, 0.0, 0.0]], 'wavelengths': [[0.55, True]], 'telecentric': False,
+            'object_thickness': INF}
+    out = [
+        ('mirror-f10', dict(base, aperture=['EPD', 10.0], surfaces=[
+            {'type': 'standard', 'radius': -200.0, 'conic': -1.0, 'thickness': -100.0, 'material': 'mirror', 'is_stop': True}])),
+        ('singlet-f8', dict(base, aperture=['EPD', 7.5], surfaces=[
+            {'type': 'standard', 'radius': 62.0, 'thickness': 5.0, 'material': ['ideal', 1.52, 0.0], 'is_stop': True},
+            {'type': 'standard', 'radius': -62.0, 'thickness': 58.0, 'material': 'air'}])),
+        ('doublet-imagefno', dict(base, aperture=['imageFNO', 6.0], surfaces=[
+            {'type': 'standard', 'radius': 61.0, 'thickness': 6.0, 'material': ['glass', 'N-BK7', 'schott'], 'is_stop': True},
+            {'type': 'standard', 'radius': -43.0, 'thickness': 2.5, 'material': ['glass', 'N-SF5', 'schott']},
+            {'type': 'standard', 'radius': -125.0, 'thickness': 95.0, 'material': 'air'}])),
+        ('relay-finite', dict(base, object_thickness=180.0, field_type='object_height', aperture=['EPD', 6.0], surfaces=[
+            {'type': 'standard', 'radius': INF, 'thickness': 3.0, 'material': 'air', 'is_stop': True},
+            {'type': 'standard', 'radius': 55.0, 'thickness': 5.0, 'material': ['ideal', 1.6, 0.0]},
+            {'type': 'standard', 'radius': -55.0, 'thickness': 66.0, 'material': 'air'}])),
+        ('relay-immersed-na', dict(base, object_thickness=90.0, field_type='object_height', aperture=['objectNA', 0.04],
+                                   object_material=['ideal', 1.33, 0.0], surfaces=[
+            {'type': 'standard', 'radius': 40.0, 'thickness': 6.0, 'material': ['ideal', 1.7, 0.0], 'is_stop': True},
+            {'type': 'standard', 'radius': -40.0, 'thickness': 120.0, 'material': 'air'}])),
+    ]
+    lr = random.Random(ctx.seed + 311)
+    tries = 0
+    want = ctx.n(3, 24)
+    while len(out) < 5 + want and tries < 10 * want:
+        tries += 1
+        spec = lensgen.gen_spec(lr, nsurf=lr.choice([1, 2, 3, 4]), allow=['plane', 'standard', 'conic'], mirrors=False, decenter=False)
+        if lr.random() < 0.4:
+            lensgen.immerse(spec, lr)
+        spec['fields'] = [[0.0, 0.0, 0.0, 0.0]]
+        c = prescription_cutoff(spec)
+        if c is None or not (1.0 < c['working_FNO'] < 400.0):
+            continue
+        out.append((f'gen{tries}', spec))
+    return out
+
+
+ROUTES = ('direct', 'handbuilt', 'reuse', 'roundtrip', 'image-object', 'edited')
+
+
+def build_route(spec, route, rng):
+    """-> (optic, prescription the optic must now be).  'edited' = direct build followed by public setter calls
+    (set_radius / set_thickness / set_index incl. the image-space medium)"""
+    import copy
+    import lensgen
+    if route == 'image-object':
+        sp = copy.deepcopy(spec)
+        sp['image_object'] = True
+        return lensgen.build(sp), sp
+    if route == 'edited':
+        o = lensgen.build(spec)
+        kinds = ['radius', 'thickness', 'index', 'image_index'] if not any(sf.get('material') == 'mirror' for sf in spec['surfaces']) \
+            else ['radius']
+        edits = lensgen.random_edits(o, spec, rng, n=2, kinds=kinds)
+        sp = lensgen.spec_after_edits(spec, edits)      # set_index on the last lens surface leaves the image surface's own medium as entered
+        sp['_edits'] = [[k, si, float(v)] for k, si, v in edits]
+        return o, sp
+    return lensgen.build_via(spec, route, rng), spec
+
+
+def check_routes(ctx):
+    """cut-off / working F-number / PSF pixel pitch of FFTMTF, GeometricMTF and FFTPSF on lens objects reached through different
+    public routes and histories, against matrix optics on the ENTERED prescription; the PSF and MTF arrays against the directly
+    built object; repeated queries on one object; string / default / integer argument forms"""
+    _quiet()
+    import lensgen
+    from optiland.psf import FFTPSF
+    from optiland.mtf import FFTMTF, GeometricMTF
+    dis, hist, samples = [], {}, []
+    nev = 0
+    rr = random.Random(ctx.seed + 313)
+    N, G = 8, 16
+
+    def rel(a, b):
+        return abs(a - b) <= 1e-7 * (abs(a) + abs(b))
+    for name, spec in route_corpus(ctx):
+        ref_psf = None
+        for route in ROUTES:
+            try:
+                o, sp = build_route(spec, route, random.Random(rr.random()))
+            except Exception as e:     # noqa
+                ctx.notes.append(f'routes: {name}/{route} could not be built ({type(e).__name__}: {str(e)[:60]})')
+                continue
+            exp = prescription_cutoff({k: v for k, v in sp.items() if k != '_edits'})
+            if exp is None:
+                continue
+            lam = exp['wavelength']
+            conj = 'infinite' if math.isinf(float(sp['object_thickness'])) else 'finite'
+            key = f'{route}/{conj}/{sp["aperture"][0]}'
+            try:
+                fm = FFTMTF(o, fields=[(0.0, 0.0)], wavelength=lam, num_rays=N, grid_size=G)
+                gm = GeometricMTF(o, fields=[(0.0, 0.0)], wavelength=lam, num_rays=6, num_points=8)
+                pp = FFTPSF(o, (0.0, 0.0), lam, num_rays=N, grid_size=G)
+                pitch = float(pp._get_psf_units(pp.psf)[0]) / G
+                step = float(fm._get_mtf_units())
+            except Exception as e:     # noqa
+                ctx.notes.append(f'routes: {name}/{route} analysis raised {type(e).__name__}: {str(e)[:60]}')
+                continue
+            hist[key] = hist.get(key, 0) + 1
+            nev += 1
+            got = {'FFTMTF.FNO': float(fm.FNO), 'FFTMTF.max_freq': float(fm.max_freq), 'GeometricMTF.max_freq': float(gm.max_freq),
+                   'FFTMTF axis cut-off (step*num_rays)': step * N, 'FFTPSF pixel pitch': pitch}
+            want = {'FFTMTF.FNO': exp['working_FNO'], 'FFTMTF.max_freq': exp['cutoff'], 'GeometricMTF.max_freq': exp['cutoff'],
+                    'FFTMTF axis cut-off (step*num_rays)': exp['cutoff'], 'FFTPSF pixel pitch': lam * exp['working_FNO'] / (G / N)}
+            badq = [q for q in got if math.isfinite(got[q]) and not rel(got[q], want[q])]
+            if badq:
+                q = badq[0]
+                dis.append({'kind': 'route-cutoff', 'site': q.split(' ')[0], 'lens': name, 'route': route, 'class': key, 'quantity': q,
+                            'observed': got[q], 'expected_from_prescription': want[q], 'all_wrong': badq,
+                            'prescription': {k: v for k, v in sp.items()},
+                            'prescription_problems': lensgen.prescription_problems({k: v for k, v in sp.items() if k != '_edits'}, o, lam),
+                            'violates_property': True})
+            # arrays: the same prescription must give the same PSF / MTF whatever the route
+            if route == 'direct':
+                ref_psf, ref_mtf = pp.psf, fm.mtf[0]
+                # state between calls: the same object queried again after other analyses
+                fm2 = FFTMTF(o, fields=[(0.0, 0.0)], wavelength=lam, num_rays=N, grid_size=G)
+                if not (np.array_equal(fm2.psf[0], fm.psf[0], equal_nan=True) and float(fm2.max_freq) == float(fm.max_freq)):
+                    dis.append({'kind': 'route-repeat', 'site': 'FFTMTF', 'lens': name, 'route': route, 'class': key,
+                                'what': 'a second FFTMTF of the same object differs from the first', 'violates_property': True})
+                # argument forms: defaults / strings / integers mean the same as the explicit floats
+                try:
+                    fa = FFTMTF(o, num_rays=N, grid_size=G)                       # fields='all', wavelength='primary'
+                    fi = FFTMTF(o, fields=[(0, 0)], wavelength='primary', num_rays=int(N), grid_size=int(G))
+                    ga = GeometricMTF(o, num_rays=6, num_points=8)
+                    hist['argument-forms'] = hist.get('argument-forms', 0) + 1
+                    for nm_, a_, b_ in (('FFTMTF(fields="all", wavelength="primary")', fa, fm), ('FFTMTF(fields=[(0, 0)] ints)', fi, fm)):
+                        if not (np.array_equal(np.asarray(a_.mtf[0]), np.asarray(fm.mtf[0]), equal_nan=True) and float(a_.max_freq) == float(fm.max_freq)):
+                            dis.append({'kind': 'route-argument-form', 'site': 'FFTMTF.__init__', 'lens': name, 'form': nm_,
+                                        'max_freq': float(a_.max_freq), 'expected': float(fm.max_freq), 'violates_property': True})
+                    if not (float(ga.max_freq) == float(gm.max_freq) and np.array_equal(np.asarray(ga.mtf[0]), np.asarray(gm.mtf[0]), equal_nan=True)):
+                        dis.append({'kind': 'route-argument-form', 'site': 'GeometricMTF.__init__', 'lens': name, 'form': 'defaults',
+                                    'max_freq': float(ga.max_freq), 'expected': float(gm.max_freq), 'violates_property': True})
+                except Exception as e:     # noqa
+                    ctx.notes.append(f'routes: {name} argument forms raised {type(e).__name__}: {str(e)[:60]}')
+            elif route != 'edited' and ref_psf is not None and np.all(np.isfinite(ref_psf)):
+                d_ = float(np.max(np.abs(pp.psf - ref_psf))) if pp.psf.shape == ref_psf.shape else float('inf')
+                if not d_ <= 1e-9 * (1 + float(np.max(np.abs(ref_psf)))):
+                    dis.append({'kind': 'route-psf', 'site': 'FFTPSF', 'lens': name, 'route': route, 'class': key, 'max_abs_diff_vs_direct_build': d_,
+                                'prescription': {k: v for k, v in sp.items()},
+                                'prescription_problems': lensgen.prescription_problems(sp, o, lam), 'violates_property': True})
+            elif route == 'edited':
+                try:
+                    od = lensgen.build({k: v for k, v in sp.items() if k != '_edits'})
+                    pd_ = FFTPSF(od, (0.0, 0.0), lam, num_rays=N, grid_size=G)
+                    if np.all(np.isfinite(pd_.psf)):
+                        d_ = float(np.max(np.abs(pp.psf - pd_.psf)))
+                        if not d_ <= 1e-7 * (1 + float(np.max(np.abs(pd_.psf)))):
+                            dis.append({'kind': 'route-psf', 'site': 'FFTPSF', 'lens': name, 'route': route, 'class': key,
+                                        'max_abs_diff_vs_direct_build': d_, 'prescription': {k: v for k, v in sp.items()},
+                                        'prescription_problems': lensgen.prescription_problems({k: v for k, v in sp.items() if k != '_edits'}, o, lam),
+                                        'violates_property': True})
+                except Exception as e:     # noqa
+                    ctx.notes.append(f'routes: {name}/edited reference build raised {type(e).__name__}')
+            if not samples:
+                samples.append({'lens': name, 'route': route, 'expected_working_FNO': exp['working_FNO'], 'expected_cutoff': exp['cutoff'],
+                                'FFTMTF.max_freq': float(fm.max_freq)})
+    seen, short = set(), []
+    for d in dis:
+        key = (d['kind'], d.get('site'), d.get('route'))
+        if key not in seen:
+            seen.add(key)
+            short.append(d)
+    return {'name': 'routes', 'n': nev, 'nontrivial': sum(v for k, v in hist.items() if not k.startswith('direct') and k != 'argument-forms'),
+            'histogram': hist, 'disagreements': short[:8], 'samples': samples,
+            'note': 'kinds seen: ' + ', '.join(sorted({d['kind'] for d in short}))}
+
+
 def check_oracle(ctx):
     """the property stated directly on the real implementation (same sweep as search()); every witness is a
     confirmed violation -- listed findings are recognised by the runner, anything else alarms"""
@@ -1059,6 +1307,7 @@ def system_checks(ctx):
     yield r
     yield _guard('impl_oracle', check_oracle, ctx)
     yield _guard('multi_field', check_multifield, ctx)
+    yield _guard('routes', check_routes, ctx)
     yield _guard('mtf_pipeline', check_mtf_pipeline, ctx, psfs)
     yield _guard('freq_axis', check_freq_axis, ctx)
     yield _guard('difflim', check_difflim, ctx)
@@ -1230,12 +1479,13 @@ def search(ctx, broken, disagreements):
         add([d for d in res.get('disagreements', []) if d.get('violates_property')])
     except Exception as e:     # noqa
         ctx.notes.append(f'search: cutoff raised {type(e).__name__}')
-    if broken or disagreements:      # called by the runner (check_oracle calls with empty lists and runs check_multifield itself)
-        try:
-            res = check_multifield(ctx)
-            add([d for d in res.get('disagreements', []) if d.get('violates_property')])
-        except Exception as e:     # noqa
-            ctx.notes.append(f'search: multi-field sweep raised {type(e).__name__}')
+    if broken or disagreements:      # called by the runner (check_oracle calls with empty lists; the other sweeps are checks of their own)
+        for fn_ in (check_multifield, check_routes):
+            try:
+                res = fn_(ctx)
+                add([d for d in res.get('disagreements', []) if d.get('violates_property')])
+            except Exception as e:     # noqa
+                ctx.notes.append(f'search: {fn_.__name__} raised {type(e).__name__}')
     ws = list(found.values())
     try:            # unlisted witnesses first
         known = vlib.load_known_findings(PROP)
